@@ -995,6 +995,9 @@ def c20_jobs():
         jobs.append(Job("c20.cpp", "h_c20_reassembly", defs={"SL0": a, "SL1": b, "STR": t}, unwind=300, unwindset={("Decoder6decode", None): 6, ("_M_realloc_insert", None): 4, ("_Hashtable", None): 4, ("_M_release", None): 3},
                         tier="quick" if (a, b) == (8, 5) else "thorough", in_max=2 * (24 + a + b + t) + 8, mem_gb=8, variant="mapmodel",
                         sym="all bytes of both segments incl. trailing bytes, start sequence counter; " + sym2, outside="more than two segments"))
+    for bd, tier in ((9, "quick"), (13, "quick"), (5, "thorough"), (33, "thorough"), (64, "thorough")):
+        jobs.append(Job("c20.cpp", "h_c20_build", defs={"BS": 1, "BV": 0, "BD": bd}, unwind=160, tier=tier, in_max=64 + bd, mem_gb=4,
+                        sym="data bytes; " + sym2, outside="data blocks > 64 bytes"))
     for (bs, bv) in ((3, 1), (0, 0), (2, 2), (5, 3)):
         jobs.append(Job("c20.cpp", "h_c20_build", defs={"BS": bs, "BV": bv}, unwind=120, tier="quick" if (bs, bv) in ((3, 1), (2, 2)) else "thorough", in_max=64, mem_gb=3,
                         sym="string characters, stream ids, vendor bytes, uptime; " + sym2, outside="strings > 5 characters"))
